@@ -15,7 +15,7 @@ from typing import List, Optional, Tuple
 import xonsh.history.json as hj
 from xonsh.built_ins import XSH
 
-from vf.api import Obligation, Skip
+from vf.api import Obligation, Skip, gappy
 
 STUBS = [
     "time.time (module xonsh.history.json) -> symbolic integer clock",
@@ -363,6 +363,8 @@ def _run_files(world, boot, only_unlocked, rewritten):
             disk[dst].update(locked=pending.pop(src))
 
     P.dirname = staticmethod(lambda f: "")
+    O.rename = O.replace
+    O.path = gappy(P, "os_path")
 
     class TF:
         @staticmethod
@@ -396,7 +398,7 @@ def _run_files(world, boot, only_unlocked, rewritten):
             return boot
 
     saved = (hj.os, hj.xlj, hj.uptime, hj._xhj_get_history_files, XSH.env, hj.time, hj.tempfile)
-    hj.os, hj.xlj, hj.uptime, hj.tempfile = O, x, U, TF
+    hj.os, hj.xlj, hj.uptime, hj.tempfile = gappy(O, "os"), x, U, gappy(TF, "tempfile")
     hj._xhj_get_history_files = lambda sort=True, **k: list(disk)
     hj.open = lambda f, *a, **k: _Opened(rewritten, f)
     hj.time = _Clock(0)
@@ -552,15 +554,15 @@ OBLIGATIONS = [
                       "size, ts0, ts1, ncmds, boot unbounded ints",
                pre=["len(recs) == len(flags)", "boot >= 0"],
                parts={"quick": [dict(flags=fl) for fl in _flagsets(2)],
-                      "thorough": [dict(flags=fl) for fl in _flagsets(3, True)]},
+                      "thorough": [dict(flags=fl) for fl in _flagsets(3)]},  # unordered: the files are symbolic and symmetric
                timeout={"quick": 150, "thorough": 1500},
                symbolic="boot time, only_unlocked; per file (size, ts0, ts1, ncmds)"),
     Obligation("gc_end_to_end", ob_end_to_end,
-               bounds="quick: 0..1 files with every (locked, unreadable) pattern plus the pair (unlocked, live-locked); thorough: 0..3 files, every pattern; every unit",
+               bounds="quick: 0..1 files with every (locked, unreadable) pattern plus the pair (unlocked, live-locked); thorough: 0..2 files, every pattern; every unit",
                pre=["len(recs) == len(flags)", "boot >= 0", "hsize >= 0", "now >= 0"],
                parts={"quick": [dict(flags=fl, unit=u) for fl in _flagsets(1) + [((False, False), (True, False))]
                                 for u in range(4)],
-                      "thorough": [dict(flags=fl, unit=u) for fl in _flagsets(3) for u in range(4)]},
-               timeout={"quick": 150, "thorough": 1500},
+                      "thorough": [dict(flags=fl, unit=u) for fl in _flagsets(2) for u in range(4)]},
+               timeout={"quick": 150, "thorough": 900},
                symbolic="limit, force, boot, now; per file (size, ts0, ts1, ncmds)"),
 ]
